@@ -196,12 +196,33 @@ func (g *TemplateGenerator) format(src []byte) ([]byte, error) {
 	return nil, fmt.Errorf("unknown formatter type: %s", g.formatter)
 }
 
+// templateReservedNames lists, for the built-in templates, the identifiers that the
+// generated method bodies declare or rely on. They are made visible in every method
+// scope so that a parameter or named result with the same name gets renamed instead of
+// shadowing them.
+var templateReservedNames = map[string][]string{
+	"testify": {
+		"_mock", "_e", "_c", "_va", "_i", "_ca", "tmpRet", "returnFunc", "ok", "mock",
+		"len", "append", "make", "panic", "nil",
+	},
+	"matryer": {"mock", "callInfo", "append", "panic", "nil"},
+}
+
 func (g *TemplateGenerator) methodData(ctx context.Context, method *types.Func, ifaceConfig *config.Config) (template.Method, error) {
 	log := zerolog.Ctx(ctx)
 
 	methodScope := g.registry.MethodScope()
 
 	signature := method.Type().(*types.Signature)
+	for _, name := range templateReservedNames[g.templateName] {
+		methodScope.AddName(name)
+	}
+	if g.templateName == "testify" {
+		// the result variables r0, r1, ...
+		for j := 0; j < signature.Results().Len(); j++ {
+			methodScope.AddName(fmt.Sprintf("r%d", j))
+		}
+	}
 	params := make([]template.Param, signature.Params().Len())
 
 	for j := 0; j < signature.Params().Len(); j++ {
